@@ -89,10 +89,12 @@ Print M.
 META = {
     "category": "proof",
     "text": ("Coq model of Config.glob/globDir over a finite file-system map (files, directories, symlinks) with ReadDir2 as a function "
-             "of it; theorems on single-component words (result = sorted matching names, dot-file rule, nullglob/noglob); model tied "
+             "of it; theorem C19_glob_matches_spec: for words with any number of components (no active **) the result is the bytewise "
+             "sorted list of exactly the tree paths whose components match (dot-file rule, wantDir, symlinks, literal components), "
+             "plus nullglob/noglob; model tied "
              "to expand.Fields with an in-memory ReadDir2 on every run (in-kernel evaluation); differential search of interp.Runner vs "
              "real bash 5.2 in materialised trees under dotglob/nullglob/globstar/nocaseglob/extglob/noglob."),
-    "note": ("Partial: the multi-component loop and globstar are modelled and tied by the code leg but the theorem covers one "
-             "component; see notes/C19.md. Two expand.go defects repaired (dot-file rule, globstar through symlinks)."),
+    "note": ("Partial: the ** walk is modelled and tied by the code leg and the bash search but not proved against a Spec; "
+             "see notes/C19.md. Two expand.go defects repaired (dot-file rule, globstar through symlinks)."),
     "design_ref": "DESIGN.md 4 C19",
 }
